@@ -372,6 +372,7 @@ func TestCheck(t *testing.T) {
 	r.Require("shared_object_valid_calls_published", 150)
 	r.Require("concurrent_first_use_trials", 50)
 	r.Require("aged_process_foreign_signature_probes", 40000)
+	r.Require("raw_signature_calls/trailing-bytes", 10)
 	r.Require("other_domain_attestation_sets_under_source_epoch_domain", 20)
 	r.Require("valid_published_attestations_source_and_target_in_different_forks", 50)
 
@@ -475,6 +476,9 @@ func TestCheck(t *testing.T) {
 		runCase(ctx, c, ch, mon, env, k, &validCursor[env.n], &dtCursors[c.Idx%len(kinds)])
 	})
 
+	if !r.Replaying() {
+		runRawSignatures(ctx, r)
+	}
 	if !r.Replaying() {
 		runAgedProcess(ctx, r, ch, mon, clusters, func(t int) (*sigagg.Aggregator, error) {
 			return sigagg.New(t, sigagg.NewVerifier(faultClient{Client: bnClient}))
